@@ -483,6 +483,11 @@ func (r *ReconcileExperiment) ReconcileSuggestions(instance *experimentsv1beta1.
 				msg := "Suggestion has failed"
 				instance.MarkExperimentStatusFailed(util.ExperimentFailedReason, msg)
 			} else {
+				// The experiment is running, so a Succeeded suggestion is left over from a cleanup that raced with
+				// the restart of the experiment. Restart the suggestion; the next reconcile requests the assignments.
+				if original.IsSucceeded() && instance.Spec.ResumePolicy == experimentsv1beta1.FromVolume {
+					return nil, r.restartSuggestion(instance)
+				}
 				suggestion := original.DeepCopy()
 				if len(suggestion.Status.Suggestions) > int(currentCount) {
 					suggestions := suggestion.Status.Suggestions
